@@ -97,6 +97,11 @@ impl Segment {
         if start.as_usize() > 0xffff || end.as_usize() > 0x10000 {
             return false;
         }
+        // (nor should the addresses the code is assembled for, with a 'pc' that differs from 'start', leave the address space)
+        let target_end = end.as_i64() + self.target_offset();
+        if target_end - (bytes.len() as i64) < 0 || target_end > 0x10000 {
+            return false;
+        }
 
         if start.as_usize() < self.range.start || self.data.is_empty() {
             self.range.start = start.as_usize();
